@@ -687,7 +687,7 @@ func clipIDs(l []string) []string {
 
 func runC09(c *vk.Ctx) {
 	c.Rule("generated corpora (multi-segment, pending deletions, single-valued sort fields with missing values and heavy ties) x queries (match-all, term, match, prefix) x sort orders of 1..3 keys from {_score,k,n,d,_id} x asc/desc x missing first/last x (n, from) around 0, the slice/heap switch at 10, the result count and the 1000 pre-allocation cap; " +
-		"reference = all matches ordered by a comparator over the model's field values, ties by enumeration order; paging: After and Before chains under a total order for all page sizes; " +
+		"reference = all matches ordered by a comparator over the model's field values, ties by enumeration order; paging: After and Before chains under a total order for all page sizes; the same windows and After chains through MultiSearch over 2..4 readers holding parts of the documents; " +
 		"distinct non-trivial = distinct (sort shape, n class, from class, ties present, store kind) with a non-empty slice, plus (mode, keys, page size class) chains of >= 2 pages")
 	c.Assume("sort fields are single-valued (the property does not say which value of a multi-valued field sorts)",
 		"scores used by _score keys are the hit's own score from the all-matches run on the same reader",
@@ -715,6 +715,11 @@ func runC09(c *vk.Ctx) {
 	for i := 0; i < c.Pick(6, 120); i++ {
 		c09Parallel(c, i)
 	}
+	for i := 0; i < c.Pick(12, 240); i++ {
+		c09Multi(c, i)
+	}
+	c.Require("multisearch_sorted_windows", 100)
+	c.Require("multisearch_after_chains", 20)
 	c.Require("deep_requests_beyond_the_prealloc_cap_with_more_matches", 10)
 	c.Require("topn_store_slice", 50)
 	c.Require("topn_store_heap", 50)
